@@ -126,6 +126,20 @@ func (x *Exec) call(st *State, e *ast.CallExpr, k func(*State, []Term)) {
 
 // args evaluates call arguments, packing variadic ones into a slice.
 func (x *Exec) args(st *State, e *ast.CallExpr, sig *types.Signature, k func(*State, []Term)) {
+	if len(e.Args) == 1 && sig.Params().Len() > 1 && !sig.Variadic() {
+		if ce, ok := ast.Unparen(e.Args[0]).(*ast.CallExpr); ok {
+			if tup, ok := x.info.TypeOf(ce).(*types.Tuple); ok && tup.Len() == sig.Params().Len() {
+				x.call(st, ce, func(st *State, rs []Term) {
+					var out []Term
+					for i, v := range rs {
+						out = append(out, x.conv(st, v, sig.Params().At(i).Type()))
+					}
+					k(st, out)
+				})
+				return
+			}
+		}
+	}
 	x.exprList(st, e.Args, func(st *State, vs []Term) {
 		np := sig.Params().Len()
 		if len(vs) == 1 && np > 1 && !sig.Variadic() {
@@ -384,7 +398,33 @@ func (x *Exec) staticCall(st *State, e *ast.CallExpr, fn *types.Func, recv *Term
 		return
 	}
 	if u != nil && st.depth < 4 && u.Body != nil {
-		x.inlineCall(st, u, recv, args, k)
+		// explicit or inferred type arguments of a generic callee
+		var id *ast.Ident
+		switch f := ast.Unparen(e.Fun).(type) {
+		case *ast.Ident:
+			id = f
+		case *ast.IndexExpr:
+			id, _ = f.X.(*ast.Ident)
+		case *ast.IndexListExpr:
+			id, _ = f.X.(*ast.Ident)
+		}
+		saved := x.tsubst
+		if id != nil {
+			if inst, ok := x.info.Instances[id]; ok && sig.TypeParams() != nil {
+				m := map[string]types.Type{}
+				for i := 0; i < sig.TypeParams().Len() && i < inst.TypeArgs.Len(); i++ {
+					m[sig.TypeParams().At(i).Obj().Name()] = inst.TypeArgs.At(i)
+				}
+				x.tsubst = m
+			}
+		}
+		x.inlineCall(st, u, recv, args, func(st *State, rs []Term) {
+			cur := x.tsubst
+			x.tsubst = saved
+			k(st, rs)
+			x.tsubst = cur
+		})
+		x.tsubst = saved
 		return
 	}
 	x.undecide("call of %s without contract at %s", fn.FullName(), x.prog.pos(e))
@@ -499,6 +539,49 @@ func (x *Exec) contractCall(st *State, pos ast.Node, spec *UnitSpec, sig *types.
 	k(st, results)
 }
 
+// The only AST locations pass 2 writes: the initialiser and keyword position of
+// for / switch / type-switch statements (directly or through pointers to them).
+var astInitKeys = map[string]bool{
+	"ast.ForStmt.Init": true, "ast.ForStmt.For": true, "ast.SwitchStmt.Init": true, "ast.SwitchStmt.Switch": true,
+	"ast.TypeSwitchStmt.Init": true, "ast.TypeSwitchStmt.Switch": true, "cell:Iface": true, "cell:Int": true,
+}
+
+// havocASTKey: a callee that rewrites a subtree may change these fields of any
+// node of that subtree; by tree-ness (A-tree) not those of the nodes the
+// calling unit itself received as parameters, nor of cells it was handed.
+func (x *Exec) havocASTKey(st *State, key, valSort string) {
+	v := x.fieldVer(st, key, valSort)
+	name := x.d.fresh("H_"+key, v.sort)
+	nv := &HeapVer{term: name, sort: v.sort, parent: v, havoc: true, wild: true, valSort: valSort}
+	st.fields[key] = nv
+	x.assumed["A-tree: the AST is a tree - rewriting a sub-statement does not change the initialiser/position fields of the statement the calling unit is working on"] = true
+	for _, keep := range x.ownNodeRefs(st) {
+		st.assume(sEq(fmt.Sprintf("(select %s %s)", name, keep), fmt.Sprintf("(select %s %s)", v.term, keep)))
+	}
+}
+
+// ownNodeRefs: references of the AST nodes / cells the unit received as parameters.
+func (x *Exec) ownNodeRefs(st *State) []string {
+	var out []string
+	if x.unit.Sig == nil {
+		return nil
+	}
+	for i := 0; i < x.unit.Sig.Params().Len(); i++ {
+		pv := x.unit.Sig.Params().At(i)
+		t, ok := x.entry.vars[pv]
+		if !ok {
+			continue
+		}
+		switch t.Sort {
+		case "Ref":
+			out = append(out, t.S)
+		case "Iface":
+			out = append(out, "(iref "+t.S+")")
+		}
+	}
+	return out
+}
+
 // havocMutableCaptures: any call may run a closure that writes a mutable captured variable.
 func (x *Exec) havocMutableCaptures(st *State) {
 	for o := range st.vars {
@@ -523,12 +606,16 @@ func (x *Exec) applyModifies(st *State, spec *UnitSpec, pre *State, binds map[st
 	wildKeys := map[string]bool{}
 	modelExc := map[string][]string{}
 	modW := false
+	modAST := false
 	for _, m := range mods {
 		for _, loc := range m.Locs {
 			switch l := loc.(type) {
 			case *cxIdent:
 				if l.Name == "W" {
 					modW = true
+				}
+				if l.Name == "AST" {
+					modAST = true
 				}
 			case *cxSel:
 				obj := x.cxTermIn(st, l.X, pre, binds, nil)
@@ -559,9 +646,18 @@ func (x *Exec) applyModifies(st *State, spec *UnitSpec, pre *State, binds map[st
 					exc["cell:"+es] = append(exc["cell:"+es], p.S)
 					excSort["cell:"+es] = es
 				default:
-					if _, ok := x.prog.Contracts.Models[l.Fun]; ok {
+					if mu, ok := x.prog.Contracts.Models[l.Fun]; ok {
 						obj := x.cxTermIn(st, l.Args[0], pre, binds, nil)
-						modelExc[l.Fun] = append(modelExc[l.Fun], obj.S)
+						if f := transparentModel(mu); f != "" {
+							if obj.T == nil {
+								obj.T = x.modelParamType(mu, 0)
+							}
+							key, vs := x.fieldKeyFor(obj, f)
+							excSort[key] = vs
+							exc[key] = append(exc[key], obj.S)
+						} else {
+							modelExc[l.Fun] = append(modelExc[l.Fun], obj.S)
+						}
 					} else {
 						x.undecide("modifies: unsupported location %s", loc.cxs())
 						return
@@ -587,7 +683,15 @@ func (x *Exec) applyModifies(st *State, spec *UnitSpec, pre *State, binds map[st
 	}
 	for _, key := range sortedKeys(st.fields) {
 		v := st.fields[key]
-		x.havocField(st, key, v.valSort, clk, exc[key], wildKeys[key])
+		wild := wildKeys[key]
+		if modAST && astInitKeys[key] {
+			x.havocASTKey(st, key, v.valSort)
+			continue
+		}
+		x.havocField(st, key, v.valSort, clk, exc[key], wild)
+	}
+	if modAST {
+		st.astEpoch++
 	}
 	for _, name := range sortedKeys(st.models) {
 		v := st.models[name]
@@ -639,6 +743,10 @@ func (x *Exec) checkWriteFrame(st *State, key, ref string, pos ast.Node) {
 	for _, m := range mods {
 		for _, loc := range m.Locs {
 			switch l := loc.(type) {
+			case *cxIdent:
+				if l.Name == "AST" && astInitKeys[key] {
+					alts = append(alts, "true")
+				}
 			case *cxSel:
 				obj := x.cxTermIn(x.entry, l.X, x.entry, x.hdr, nil)
 				k2, _ := x.fieldKeyFor(obj, l.Sel)
